@@ -15,6 +15,8 @@
 package pbft
 
 import (
+	"io"
+	"os"
 	"time"
 
 	"github.com/dappledger/AnnChain/gemmill/go-wire"
@@ -75,9 +77,32 @@ func (wal *WAL) OnStart() error {
 		return err
 	} else if size == 0 {
 		wal.writeHeight(1)
+	} else if !endsWithNewline(wal.group.Head.Path) {
+		// A crash cut the last record. End the partial line, so that the records written from now
+		// on start on a line of their own and stay readable.
+		wal.group.WriteLine("")
+		if err := wal.group.Flush(); err != nil {
+			return err
+		}
 	}
 	_, err = wal.group.Start()
 	return err
+}
+
+func endsWithNewline(path string) bool {
+	f, err := os.Open(path)
+	if err != nil {
+		return true
+	}
+	defer f.Close()
+	var last [1]byte
+	if _, err := f.Seek(-1, io.SeekEnd); err != nil {
+		return true
+	}
+	if _, err := f.Read(last[:]); err != nil {
+		return true
+	}
+	return last[0] == '\n'
 }
 
 func (wal *WAL) OnStop() {
